@@ -41,6 +41,7 @@ UNARY = [
     "torch.view_as_real(torch.complex(t, -t))", "torch.abs(torch.view_as_real(torch.complex(t, 2 * t))).any(dim=-1)", "(torch.abs(torch.view_as_real(torch.complex(t, t))) > 1).any(dim=-1).sum()",
     "torch.real(torch.complex(t, -t) * torch.conj(torch.complex(t, -t)))", "torch.imag(torch.complex(t, 2 * t))", "torch.complex(t, -t).real + torch.complex(t, -t).imag", "torch.abs(torch.complex(t, t)) ** 2", "torch.complex(t, -t).conj().imag",
     "t.masked_fill(t > 0, float('inf')).amin(dim={d})", "t.masked_fill(t <= 0, float('-inf')).amax(dim={d})", "torch.amin(t, dim={d})", "t.amax(dim={d}, keepdim=True)", "t.masked_fill(t == 0, 5)", "(t.unsqueeze(-1) - t.flatten()[:2]) ** 2",
+    "(t.flatten() > 0).nonzero().squeeze(1)", "t.flatten().nonzero().squeeze(-1)", "t.unsqueeze(0).squeeze(0)", "t.unsqueeze(-1).squeeze(-1)", "t.unsqueeze(1).squeeze(1)", "t.squeeze({d})", "t.unsqueeze({d}).squeeze({d})",
     "t.unbind(dim={d})[0]", "t.unbind({d})[-1]", "len(t.unbind(dim={d}))", "t.unbind()[0]",
     "t.any(dim={d}).numel()", "t.all(dim={d}, keepdim=True).sum()", "t.logical_not()", "torch.logical_and(t > 0, t < 2)", "torch.logical_xor(t > 0, t < 2)", "t.eq(1)", "t.ne(1)", "t.gt(0)", "t.le(0)", "torch.eq(t, 1)",
 ]
